@@ -101,6 +101,10 @@ theorem fdEval_eq_mulVec (c : FDCfg) (n : Nat) (hn : 0 < n) (x : V K) (i : Nat) 
     · have h2 : i + 1 = n := by omega
       simp [h2, hn, hi]
 
+/-- the documented matrix as a list of rows over `ℤ` (for the worked examples) -/
+def fdRows (c : FDCfg) (n : Nat) : List (List Int) :=
+  (List.range (fdOutLen c n)).map (fun i => (List.range n).map (fun j => fdMatrix (α := Int) c n i j))
+
 end FD
 
 /-! ### axis lifting -/
